@@ -312,3 +312,39 @@ theorem sum_pos_ico (lo hi : ℕ) (a : ℕ → ℝ)
   · exact ⟨j, Finset.mem_Ico.mpr ⟨hj1, hj2⟩, hj3⟩
 
 end NessaiLemmas
+
+/-- `lemma:sum_split`: a range sum splits around one index. -/
+theorem sum_split_ico (lo k hi : ℕ) (a : ℕ → ℝ) (h1 : lo ≤ k) (h2 : k < hi) :
+    ∑ i ∈ Finset.Ico lo hi, a i =
+      ∑ i ∈ Finset.Ico lo k, a i + a k + ∑ i ∈ Finset.Ico (k + 1) hi, a i := by
+  rw [← Finset.sum_Ico_consecutive a h1 (Nat.le_of_lt h2)]
+  rw [Finset.sum_eq_sum_Ico_succ_bot h2]
+  ring
+
+/-- `lemma:sum_last`: peeling the last term of a non-empty range sum. -/
+theorem sum_last_ico (lo hi : ℕ) (a : ℕ → ℝ) (h : lo < hi) :
+    ∑ i ∈ Finset.Ico lo hi, a i =
+      ∑ i ∈ Finset.Ico lo (hi - 1), a i + a (hi - 1) := by
+  obtain ⟨m, rfl⟩ : ∃ m, hi = m + 1 := ⟨hi - 1, by omega⟩
+  simp only [Nat.add_sub_cancel]
+  exact Finset.sum_Ico_succ_top (by omega) a
+
+/-- `lemma:sum_mul`: a pointwise constant factor comes out of the sum. -/
+theorem sum_mul_ico (lo hi : ℕ) (a b : ℕ → ℝ) (c : ℝ)
+    (h : ∀ k, lo ≤ k → k < hi → a k = c * b k) :
+    ∑ k ∈ Finset.Ico lo hi, a k = c * ∑ k ∈ Finset.Ico lo hi, b k := by
+  rw [Finset.mul_sum]
+  apply Finset.sum_congr rfl
+  intro k hk
+  rw [Finset.mem_Ico] at hk
+  exact h k hk.1 hk.2
+
+/-- `lemma:sum_div`: a pointwise constant divisor comes out of the sum. -/
+theorem sum_div_ico (lo hi : ℕ) (a b : ℕ → ℝ) (c : ℝ)
+    (h : ∀ k, lo ≤ k → k < hi → a k = b k / c) :
+    ∑ k ∈ Finset.Ico lo hi, a k = (∑ k ∈ Finset.Ico lo hi, b k) / c := by
+  rw [Finset.sum_div]
+  apply Finset.sum_congr rfl
+  intro k hk
+  rw [Finset.mem_Ico] at hk
+  exact h k hk.1 hk.2
